@@ -210,6 +210,10 @@ def canonicalise(tree, modname, table=None):
     if not ref:
       continue
     cur = bindings(fn)
+    if ref and cur and ref[0][0] in ('self', 'cls') and cur[0][0] not in ('self', 'cls') and \
+        any(ast.unparse(d) == 'staticmethod' for d in fn.decorator_list):
+      # a method turned into a static method: its parameters line up with the reference's after `self`
+      ref = [(n, 'param:%d' % (int(fp.split(':')[1]) - 1) if fp.startswith('param:') else fp) for n, fp in ref[1:]]
     if [n for n, _ in cur] == [n for n, _ in ref]:
       continue
     sm = difflib.SequenceMatcher(None, [fp for _, fp in ref], [fp for _, fp in cur], autojunk=False)
@@ -248,3 +252,25 @@ def canonicalise(tree, modname, table=None):
       rename_in(st, safe)
     total += len(safe)
   return total
+
+
+def interface_of(fn):
+  """What a caller relies on besides the name: parameter kinds / count, whether it is a generator, and the shapes it returns."""
+  a = fn.args
+  own = _own_nodes(fn)
+  rets = set()
+  for n in own:
+    if isinstance(n, ast.Return):
+      v = n.value
+      if v is None or (isinstance(v, ast.Constant) and v.value is None):
+        rets.add('none')
+      elif isinstance(v, ast.Tuple):
+        rets.add('tuple:%d' % len(v.elts))
+      else:
+        rets.add('value')
+  return {'pos': len(a.posonlyargs) + len(a.args), 'kwonly': len(a.kwonlyargs), 'var': bool(a.vararg), 'kw': bool(a.kwarg),
+          'gen': any(isinstance(n, (ast.Yield, ast.YieldFrom)) for n in own), 'rets': sorted(rets - {'none'})}
+
+
+def interface_table(tree, modname):
+  return {q: interface_of(fn) for q, fn in _functions(tree, modname)}
